@@ -89,7 +89,7 @@ def recv_type(lib, f, loc):
 def run(ctx):
     lib = ctx.lib
     A = Anchors(lib)
-    R = ctx.rule('R13.1', 'who-may-grow: every retained-growth site reachable from add/insert/finish is allow-listed and structurally bounded', floor=8)
+    R = ctx.rule('R13.1', 'who-may-grow: every retained-growth site reachable from add/insert/finish is allow-listed and structurally bounded', floor=6)
     if A.err:
         for e in A.err:
             ctx.missing(R, 'anchor', e)
